@@ -58,7 +58,7 @@ func observeLayout(dir string) layoutObs {
 			o.Err = "resolve:" + t
 			return o
 		}
-		o.Tags[t] = d.Digest.String()
+		o.Tags[t] = d.Digest.String() + "#" + d.Annotations["verif.ann"]
 		if ok, _ := s.Exists(ctx, d); !ok {
 			o.Err = "tag-without-blob:" + t
 			return o
@@ -266,6 +266,16 @@ func runC10(seed int64, tier string, sc *Script) map[string]any {
 			victim = mk("tag", u.Nodes[rng.Intn(last)], "v3", true, true)
 		case "retag":
 			victim = mk("tag", u.Nodes[rng.Intn(last)], "v1", true, true)
+			victim.Ann = "second"
+			if len(manifests) > 0 && si%2 == 0 {
+				// the same content under the same name, with other annotations
+				m := manifests[rng.Intn(len(manifests))]
+				first := mk("tag", m, "v1", true, true)
+				first.Ann = "first"
+				prep = append(prep, first)
+				victim = mk("tag", m, "v1", true, true)
+				victim.Ann = "second"
+			}
 		case "untag":
 			victim = mk("untag", nil, "v1", true, true)
 		case "delete":
@@ -304,13 +314,30 @@ func runC10(seed int64, tier string, sc *Script) map[string]any {
 		copyDir(base, run)
 		logPath := filepath.Join(tmp, "trace.log")
 		cmd := exec.Command("strace", "-f", "-o", logPath, "-e", "trace="+straceSet, self, "crashchild", run, opsFile)
-		cmd.Env = append(os.Environ(), "GOMAXPROCS=1")
-		if out, err := cmd.CombinedOutput(); err != nil {
+		cmd.Env = append(os.Environ(), "GOMAXPROCS=1", "VERIF_LIVE_VIEW=1")
+		out, err := cmd.CombinedOutput()
+		if err != nil {
 			sc.Def("cr skip victim-failed:%s", strings.ReplaceAll(strings.TrimSpace(string(out)), " ", "_"))
 			os.RemoveAll(base)
 			continue
 		}
 		after := observeLayout(run)
+		// durability: everything the live handle said when the operation had returned is what
+		// a process that opens the directory afterwards sees
+		durable := "ok"
+		var live map[string]string
+		var lb []byte
+		for _, l := range strings.Split(string(out), "\n") {
+			if strings.HasPrefix(l, "LIVE ") {
+				lb = []byte(strings.TrimPrefix(l, "LIVE "))
+			}
+		}
+		if lb == nil || json.Unmarshal(lb, &live) != nil {
+			durable = "no-live-view"
+		} else if after.Err == "" && !sameTags(live, after.Tags) {
+			durable = fmt.Sprintf("returned-effect-not-on-disk:live=%v,disk=%v", live, after.Tags)
+			durable = strings.ReplaceAll(durable, " ", ",")
+		}
 		pts, norm := parseTrace(logPath, run)
 		refs := 1
 		if (vkind == "delete" || vkind == "delete-gc") && !strings.Contains(victim.MediaType, "manifest") && !strings.Contains(victim.MediaType, "index") {
@@ -332,6 +359,7 @@ func runC10(seed int64, tier string, sc *Script) map[string]any {
 			afterVerdict = after.Err
 		}
 		sc.Op(afterVerdict, "cr after op=%s", vkind)
+		sc.Op(durable, "cr durable op=%s", vkind)
 		sc.Count("victim:" + vkind)
 		if len(pts) > 0 {
 			sc.NonTrivial()
